@@ -177,6 +177,9 @@ func JudgeSeq(c *SeqCase, excludeKnown bool) *SeqResult {
 	}
 	edge := r.classes["zero-length-read"] || r.classes["empty-write"] || r.classes["deadline-expiry"] ||
 		r.classes["open-rejected"] || r.classes["open-cancelled"]
+	if r.moved > 0 {
+		r.class("bytes-moved")
+	}
 	res.NonTrivial = r.moved > 0 && edge
 	if r.classes["zero-length-read"] && r.classes["deadline-expiry"] && r.classes["open-rejected"] {
 		r.class("zero-read+expiry+rejected-open")
